@@ -323,7 +323,22 @@ def deep_wiring_leg(c):
             early = done.wait(0.5)                # the send is still held: shutdown() must be waiting for it
             if early:
                 problems.append('shutdown() returned while a delivery handed over before it was still in flight')
+            # a second caller of shutdown() (another thread, an atexit handler racing a signal handler) while the first one
+            # is still draining: it does not return as if everything had been delivered either
+            done2 = threading.Event()
+
+            def sd2():
+                try:
+                    sysm.deep.shutdown()
+                finally:
+                    done2.set()
+            th2 = threading.Thread(target=sd2)
+            th2.start()
+            if done2.wait(0.5) and not done.is_set() and sysm.sent.count((2001).to_bytes(16, 'big')) == 0:
+                problems.append('a second shutdown() call returned while the delivery handed over before it was still in '
+                                'flight (the first call was still draining)')
             gate.set()
+            done2.wait(20)
             if not done.wait(20):
                 problems.append('shutdown() did not return after the delivery had finished')
             if sysm.sent.count((2001).to_bytes(16, 'big')) != 1:
